@@ -323,6 +323,18 @@ def forObjsE {α : Type} (l : List α) (body : α → α × Except Err Bool) : L
 /-- the list after its last element (an object that was appended and is still held by a local) was mutated -/
 def setLast {α : Type} (l : List α) (x : α) : List α := l.dropLast ++ [x]
 
+/-- `s.split(sep)` for a one-character separator (a str is the list of its code points): never the empty list -/
+def strSplit (sep : Nat) : List Nat → List (List Nat)
+  | [] => [[]]
+  | c :: cs =>
+    if c = sep then [] :: strSplit sep cs
+    else match strSplit sep cs with
+      | [] => [[c]]
+      | h :: t => (c :: h) :: t
+
+/-- `s.replace(c, "")` for a one-character `c` -/
+def strRemove (c : Nat) (s : List Nat) : List Nat := s.filter (· ≠ c)
+
 /-- `bytearray.append(v)`: ValueError unless `v` is in range(256) -/
 def appendByteE (x : Bytes) (v : Int) : Except Err Bytes :=
   if v < 0 ∨ v ≥ 256 then .error .value else .ok (x ++ [UInt8.ofNat v.toNat])
